@@ -19,6 +19,26 @@ CLAIMED = {
         "DESIGN.md section 3, C05; engines E3, E10, E6, E9",
         "static analysis: interprocedural exception-escape, CFG must-pass-through on short-input tests, constant folding of the key table",
     ),
+    "C12": _entry(
+        "Static analysis decides on all control-flow paths (incl. exception edges) that MainLoop._run reaches screen.stop() after the event loop ran and re-raises unchanged, that every "
+        "terminal mode/setting acquired in Screen._start has its inverse in Screen._stop (inverse-ness by constant folding of the escape strings), that callbacks handed to "
+        "exception-swallowing scheduler APIs are wrapped by the loop's capture, and the filter -> widget -> unhandled_input order. Actual terminal state and delivery timing are not decided (level 'other').",
+        "DESIGN.md section 3, C12; engines E6, E5",
+        "static analysis: CFG must-pass-through with exception/finally edges, acquire/release pairing with constant folding, abstract closure evaluation of scheduled callbacks",
+    ),
+    "C13": _entry(
+        "Static analysis decides, per bundled event loop, capture coverage of scheduled callbacks (abstract evaluation of closures/decorators against a per-loop table of swallowing APIs), "
+        "snapshot iteration of idle callbacks, idle arming after alarm/watch callbacks, handle forgetting, boolean return discipline of the remove_* methods and agreement of the select/zmq twins. "
+        "Timing and ordering of alarms are scheduler semantics and are not decided (level 'other').",
+        "DESIGN.md section 3, C13; engines E5, E4, E6, E12, E8",
+        "static analysis: abstract closure evaluation (WRAP), iterate-a-snapshot rule, CFG path rules, sibling comparison",
+    ),
+    "C14": _entry(
+        "Static analysis decides snapshot iteration in emit, absence of strong captures in the weak-reference callback and handler records, error discipline of connect/disconnect, "
+        "identity-with-None liveness tests of weak arguments and totality of the dispatch loop. Call/argument order for all histories and GC timing are not decided (level 'other').",
+        "DESIGN.md section 3, C14; engines E4, E12, E3, E6",
+        "static analysis: iterate-a-snapshot rule, closure free-variable analysis, exception-escape, CFG dominance",
+    ),
     "C15": _entry(
         "Static analysis decides the emulator's error discipline (no modelled exception escapes addstr/addbyte/resize, CSI dispatch resolved through the table), "
         "the CSI table's internal consistency, the clamped single-writer discipline of cursor and scrolling region, shape-preserving pairing of grid edits, loop progress and container-kind misuse. "
